@@ -256,4 +256,13 @@ example : ((Table.route [] [0x2f, 0x61] 1).bind (fun t => t.addRpcService [0x47]
     some [⟨.exact [0x2f, 0x61], 1, [9]⟩, ⟨.catchAll [0x2f, 0x47, 0x2f], 2, [9]⟩, ⟨.exact [0x2f, 0x62], 3, []⟩] := by decide
 example : (Table.route [] [0x2f, 0x61, 0x2f, 0x2a, 0x72] 1).bind (fun t => t.route [0x2f, 0x61, 0x2f, 0x62] 2) = none := by decide
 
+
+/-- **The router the model describes is the one in the source** (shapes recognised on this run): `route`
+rejects paths without a leading slash and Routers as services, inserts the pattern into the matcher under a
+fresh id and stores the service under that id; `merge` re-registers every route of the other router by
+looking its path up UNDER ITS OWN ID; `route_layer` wraps exactly the routes present and leaves matcher
+and fallback as they are; `call` looks the route string up and calls the matched route, or the fallback
+(NotFound) on any non-match; `add_rpc_service` registers the translated pattern (`rpcRoutePatternGen`). -/
+theorem C16_router_is_translated : Gen.routerShapeChecked = true := rfl
+
 end Anemo
